@@ -92,6 +92,22 @@ def model(tier, rep):
                 break
             cur = _key(t, "post")
         walks.append(w)
+    # after a move the source is "valid but unspecified": dispose of it inside a recorded window (h is rebuilt empty, a
+    # same-capacity source is assigned nullptr), so that a second destruction of an already relocated capture and an
+    # illegal moved-from state (pre-state of the follow-up event) are observed
+    x0 = {"t": 0, "c": 0, "a": 0, "src": "f", "m": 0}
+
+    def follow_up(script):
+        if not script:
+            return script
+        last = script[-1]
+        if last["op"] in ("ctor_move_small", "assign_move_small"):
+            return script + [{"op": "call", "o": "f", "x": x0}, {"op": "set_small", "o": "f", "x": x0}]
+        if last["op"] in ("ctor_move", "assign_move"):
+            return script + [{"op": "assign_nullptr", "o": last["x"]["src"], "x": x0}]
+        return script
+    sc = [follow_up(s_) for s_ in sc]
+    walks = [follow_up(w) for w in walks]
     p1 = os.path.join(d, "callable_ipf_%s.ndjson" % tier)
     vlib.write_scripts(sc + walks, p1)
     p2 = os.path.join(d, "callable_cases_%s.ndjson" % tier)
